@@ -3,10 +3,10 @@
 // Enumerated space: a fixed list of feature grammars (grammars/*.tm, each minimal for one feature of
 // the Textmapper notation) x assignments of the 20 boolean Go options.
 //
-//	quick     per grammar: the default configuration, all 12 parser options on, and a pairwise-complete covering array over the
-//	          options that are not pinned by the grammar (every pair of options takes all four value
-//	          combinations in some row in which the options they depend on are enabled), built greedily
-//	          and deterministically;
+//	quick     per grammar: the default configuration, all 12 parser options on, and a
+//	          pairwise-complete covering array over the options that are not pinned by the grammar
+//	          (every pair of options takes all four value combinations in some row in which the
+//	          options they depend on are enabled), built greedily and deterministically;
 //	thorough  quick + per grammar every subset of the 12 parser options (others at their defaults),
 //	          ordered by distance from the two corners (k options on / k options off, k = 0, 1, ...),
 //	          all grammars per level. Every case is *generated*; the generated file sets are grouped
@@ -552,6 +552,7 @@ var (
 	redeclRE    = regexp.MustCompile(`(\S+) redeclared`)
 	dupCaseRE   = regexp.MustCompile(`duplicate case (\S+)`)
 	overflowRE  = regexp.MustCompile(`(overflows|truncated to) (\w+)`)
+	noPkgRE     = regexp.MustCompile(`package (\S+) is not in std`)
 	overflow2RE = regexp.MustCompile(`as (\w+) value in .*\((overflows|truncated)\)`)
 	noFieldRE   = regexp.MustCompile(`undefined \(type (\S+) has no field or method (\w+)`)
 	arityRE     = regexp.MustCompile(`(not enough|too many) arguments in call to (\S+)`)
@@ -629,6 +630,9 @@ func buildMsgClass(msg string) string {
 		return "redeclared-" + redeclRE.FindStringSubmatch(msg)[1]
 	case dupCaseRE.MatchString(msg):
 		return "duplicate-case"
+	case noPkgRE.MatchString(msg):
+		pk := noPkgRE.FindStringSubmatch(msg)[1]
+		return "imports-package-that-is-not-generated-" + pk[strings.LastIndex(pk, "/")+1:]
 	case overflow2RE.MatchString(msg):
 		return "constant-overflows-" + overflow2RE.FindStringSubmatch(msg)[1]
 	case overflowRE.MatchString(msg):
@@ -640,7 +644,7 @@ func buildMsgClass(msg string) string {
 	return slug(msg, 8)
 }
 
-// buildKeys extracts the distinct "<build|vet>:<class>:<file>" keys of a BuildErr text.
+// buildKeys extracts the distinct "build:<class>:<file>" keys of the compiler output of one case.
 func buildKeys(buildErr, name string) []string {
 	var keys []string
 	seen := map[string]bool{}
@@ -655,7 +659,7 @@ func buildKeys(buildErr, name string) []string {
 			kind = "vet"
 		}
 		msg := strings.ReplaceAll(m[3], name, "NAME")
-		if strings.HasPrefix(msg, "too many errors") {
+		if strings.HasPrefix(msg, "too many errors") || strings.Contains(msg, "other declaration of") {
 			continue
 		}
 		k := kind + ":" + buildMsgClass(msg) + ":" + m[2]
@@ -676,7 +680,7 @@ func buildKeys(buildErr, name string) []string {
 //	worker args: <phase> <source> [<list file>] [<deadline unix>]
 //	phase  "gen":   generate every case of the source that is mine, one record per case
 //	       "build": the list file holds case indices (JSON array); position k in the list is the
-//	                shard index; cases are generated again, built and vetted in batches
+//	                shard index; cases are generated again and built in batches
 //	source "enum" (the plan of the tier) or a JSON file [{"name":..,"tm":..}] (replay)
 
 type fileCase struct {
